@@ -152,7 +152,7 @@ def expected_after(ms, edits):
 
 
 def base_cases(ctx):
-    out = [(l, t) for (l, t, _) in scan_streams.canonical(ctx, ctx.pick(40, 500), "c04")]
+    out = [(l, t) for (l, t, _) in scan_streams.canonical(ctx, ctx.pick(40, 120), "c04")]
     out += [(l, t) for (l, t) in scan_streams.corpus_cases() if len(t) < 30000]
     return out
 
@@ -170,7 +170,7 @@ def correspond(ctx):
         dist["points_considered"] += len(b) + len(t)
         if not b and not t:
             continue
-        if ctx.thorough and code.count("\n") <= 200:
+        if ctx.thorough and code.count("\n") <= 100:
             # every safe point once, one edit at a time
             for k in b:
                 variants.append((lang, code, apply_edits(code, [("comment", k, comment_for(lang, rnd))]), [("comment", k, "c")]))
@@ -208,7 +208,7 @@ def correspond(ctx):
             dist["edits"][e[0]] = dist["edits"].get(e[0], 0) + 1
     return {
         "evaluations": len(variants), "distinct_nontrivial": len(nontrivial),
-        "rule": "canonical programs and the vendored corpus x 1..5 simultaneous insertions (blank line, whitespace-only line, comment-only line in every comment style of the language incl. two-line block comments, trailing comment, trailing blanks) at token-safe points computed from the real lexer's token stream (thorough: additionally every safe point of every file of at most 200 lines); oracle: analysis of the variant = analysis of the original with every line shifted by the number of lines inserted above it; non-trivial = distinct variants of files with at least one function",
+        "rule": "canonical programs and the vendored corpus x 1..5 simultaneous insertions (blank line, whitespace-only line, comment-only line in every comment style of the language incl. two-line block comments, trailing comment, trailing blanks) at token-safe points computed from the real lexer's token stream (thorough: additionally every safe point of every file of at most 100 lines); oracle: analysis of the variant = analysis of the original with every line shifted by the number of lines inserted above it; non-trivial = distinct variants of files with at least one function",
         "samples": [{"language": l, "edits": e, "original": originals[(l, c)][:80], "variant": r[:80]} for (l, c, v, e), r in list(zip(variants, vr))[5:8]],
         "exhaustive": False, "distribution": dist,
         "disagreements": dis[:50], "oracle_failures": fails[:50],
